@@ -160,16 +160,27 @@ impl<'a> IrEmitter<'a> {
             }
         }
 
-        // Check if field is a numeric index (tuple access)
-        if field.chars().all(|c| c.is_ascii_digit()) {
-            let idx: syn::Index = field
-                .parse::<usize>()
-                .map(syn::Index::from)
-                .unwrap_or_else(|_| syn::Index::from(0));
-            Ok(quote! { #o.#idx })
+        let member = Self::emit_member(field)?;
+        Ok(quote! { #o.#member })
+    }
+
+    /// Emit the member part of a field access: a named field, or a positional index for tuple fields (`t.0`).
+    ///
+    /// ## Errors
+    /// - `EmitError::Unsupported`: the field is a positional index that Rust cannot express (larger than `u32::MAX`).
+    pub(in super::super) fn emit_member(field: &str) -> Result<TokenStream, EmitError> {
+        if !field.is_empty() && field.chars().all(|c| c.is_ascii_digit()) {
+            // `syn::Index::from` asserts `index < u32::MAX`, and an unparsable index is not index 0.
+            let idx = field
+                .parse::<u32>()
+                .ok()
+                .filter(|i| *i < u32::MAX)
+                .map(|i| syn::Index::from(i as usize))
+                .ok_or_else(|| EmitError::Unsupported(format!("tuple index `{}` is out of range", field)))?;
+            Ok(quote! { #idx })
         } else {
             let f = format_ident!("{}", Self::escape_keyword(field));
-            Ok(quote! { #o.#f })
+            Ok(quote! { #f })
         }
     }
 
